@@ -3,7 +3,7 @@
     (labels are then simply absent) and the networkx marker.  Model of the deletions: model/C16_Edit.v. *)
 From stdpp Require Import gmap strings sets pretty sorting.
 From SK Require Import lib.Tok model.C15_Model proof.C15_Proof model.C16_Model proof.C16_Defs proof.C16_Common
-                       proof.C16_BipA proof.C16_BipB model.C16_Edit.
+                       proof.C16_BipA proof.C16_BipB model.C16_Edit proof.C16_BipArcs.
 Local Open Scope string_scope.
 Local Open Scope list_scope.
 
@@ -78,7 +78,7 @@ Definition with_mol (ifl : iflags) (b : bool) : iflags := IFlags (i_sp ifl) (i_r
 (** * importing the graph after the deletions = importing the graph as exported *)
 Section drop.
   Context (fl : bflags) (ifl : iflags) (d : drops) (H : net) (G : bgraph) (Ms Rs : gmap string nid).
-  Context (HS : bip_spec fl H G Ms Rs) (Hwf : wf_rxns H) (Heid : f_eid fl = true) (Hsto : f_stoich fl = true).
+  Context (HS : bip_spec fl H G Ms Rs) (Hwf : wf_rxns H) (Heid : f_eid fl = true).
   (** arcs keep their attributes that are read (`stoich`); `role` is kept too (it is never read, but dropping it changes
       every arc record) *)
   Context (Hst : d_stoich d = false) (Hro : d_role d = false).
@@ -212,7 +212,7 @@ Lemma classify_with_mol ifl b G : classify (with_mol ifl b) G = classify ifl G.
 Proof. done. Qed.
 
 Lemma import_drop fl ifl d H G Ms Rs :
-  bip_spec fl H G Ms Rs → wf_rxns H → f_eid fl = true → f_stoich fl = true →
+  bip_spec fl H G Ms Rs → wf_rxns H → f_eid fl = true →
   d_stoich d = false → d_role d = false →
   (d_kind_sp d = true ∨ d_label_sp d = true → ∀ s n, Ms !! s = Some n → n = inr (default "" (f_sp fl) +:+ s)) →
   (d_kind_sp d = true → i_sp ifl = default "" (f_sp fl)) →
@@ -223,10 +223,10 @@ Lemma import_drop fl ifl d H G Ms Rs :
   (d_label_rx d = true → ∀ e rx, edges H !! e = Some rx → r_rule rx = i_default_rule ifl) →
   bipartite_to_hypergraph ifl (drop_attrs d G) = bipartite_to_hypergraph (with_mol ifl (i_mol ifl && negb (d_mol d))) G.
 Proof.
-  intros HS Hwf Heid Hsto Hst Hro HMs Hksp Hlsp HRs Hkrx Hlrx.
+  intros HS Hwf Heid Hst Hro HMs Hksp Hlsp HRs Hkrx Hlrx.
   unfold bipartite_to_hypergraph.
   rewrite (classify_drop fl ifl d H G Ms Rs HS Hst Hro HMs Hksp HRs Hkrx), classify_with_mol.
-  destruct (classify_spec fl ifl H G Ms Rs HS Hwf Heid Hsto) as (spN & rxN & -> & HspN & HrxN).
+  destruct (classify_spec fl ifl H G Ms Rs HS Hwf Heid) as (spN & rxN & -> & HspN & HrxN).
   rewrite (foldl_ext_in (import_rxn ifl (drop_attrs d G) spN)
                         (import_rxn (with_mol ifl (i_mol ifl && negb (d_mol d))) G spN)).
   2:{ intros acc n Hn. eapply (import_rxn_drop fl ifl d H G Ms Rs HS Heid Hst Hro HMs Hlsp Hlrx spN rxN HspN HrxN).
@@ -238,7 +238,6 @@ Qed.
 
 (** * the round trip through an edited graph *)
 Definition edit_ok (fl : bflags) (ifl : iflags) (d : drops) (H : net) : Prop :=
-  d_stoich d = false ∧ d_role d = false ∧
   (f_int fl = true → d_kind_sp d = false ∧ d_kind_rx d = false ∧ d_label_sp d = false) ∧
   (d_kind_sp d = true → i_sp ifl = default "" (f_sp fl)) ∧
   (d_label_sp d = true → default "" (f_sp fl) = "") ∧
@@ -248,15 +247,16 @@ Definition edit_ok (fl : bflags) (ifl : iflags) (d : drops) (H : net) : Prop :=
 Global Instance edit_ok_dec fl ifl d H : Decision (edit_ok fl ifl d H).
 Proof. unfold edit_ok. apply _. Defined.
 
-Lemma bipartite_roundtrip_edited (fl : bflags) (ifl : iflags) (d : drops) (H : net) :
-  wf16 H → f_eid fl = true → f_stoich fl = true → bip_names_ok fl H → edit_ok fl ifl d H →
+(** node attributes deleted only (the arcs as exported by [fl]) *)
+Lemma roundtrip_nodes_edited (fl : bflags) (ifl : iflags) (d : drops) (H : net) :
+  wf16 H → f_eid fl = true → bip_names_ok fl H → d_stoich d = false → d_role d = false → edit_ok fl ifl d H →
   (bipartite_to_hypergraph ifl (drop_attrs d (hypergraph_to_bipartite fl H))).2 = None ∧
-  edges (bipartite_to_hypergraph ifl (drop_attrs d (hypergraph_to_bipartite fl H))).1 = edges H ∧
+  edges (bipartite_to_hypergraph ifl (drop_attrs d (hypergraph_to_bipartite fl H))).1 = cvr fl <$> edges H ∧
   species (bipartite_to_hypergraph ifl (drop_attrs d (hypergraph_to_bipartite fl H))).1 = occurring H ∧
   mol (bipartite_to_hypergraph ifl (drop_attrs d (hypergraph_to_bipartite fl H))).1
     = if f_mol fl && i_mol ifl && negb (d_mol d) then filter (λ p, p.1 ∈ occurring H) (mol H) else ∅.
 Proof.
-  intros Hwf16 Heid Hsto Hnames (Hst & Hro & Hint & Hksp & Hlsp & Hkrx & Hlrx).
+  intros Hwf16 Heid Hnames Hst Hro (Hint & Hksp & Hlsp & Hkrx & Hlrx).
   pose proof Hwf16 as (Hwf & Hwsp & _ & _).
   assert (bipartite_to_hypergraph ifl (drop_attrs d (hypergraph_to_bipartite fl H))
           = bipartite_to_hypergraph (with_mol ifl (i_mol ifl && negb (d_mol d))) (hypergraph_to_bipartite fl H)) as ->.
@@ -270,25 +270,40 @@ Proof.
       eapply (import_drop fl ifl d H _ Ms Rs HS); try done;
         try (intros Hd e rx Hrx; by apply (Hlrx Hd e rx Hrx)).
       intros Hd. destruct (Hkrx Hd) as [Hq Hall]. split; [done|]. intros e [rx Hrx]. by apply (Hall e rx Hrx). }
-  destruct (bipartite_roundtrip fl (with_mol ifl (i_mol ifl && negb (d_mol d))) H Hwf16 Heid Hsto Hnames) as (H1 & H2 & H3 & H4).
+  destruct (bipartite_roundtrip_gen fl (with_mol ifl (i_mol ifl && negb (d_mol d))) H Hwf16 Heid Hnames) as (H1 & H2 & H3 & H4).
   split; [done|]. split; [done|]. split; [done|]. rewrite H4. cbn [i_mol with_mol]. by rewrite andb_assoc.
+Qed.
+
+(** ANY deletion: the arc part is the export with the flags switched off ([export_drop_arcs]), the node part is re-derived *)
+Lemma bipartite_roundtrip_edited (fl : bflags) (ifl : iflags) (d : drops) (H : net) :
+  wf16 H → f_eid fl = true → bip_names_ok fl H → edit_ok fl ifl d H →
+  (bipartite_to_hypergraph ifl (drop_attrs d (hypergraph_to_bipartite fl H))).2 = None ∧
+  edges (bipartite_to_hypergraph ifl (drop_attrs d (hypergraph_to_bipartite fl H))).1 = cvr (fl_drop fl d) <$> edges H ∧
+  species (bipartite_to_hypergraph ifl (drop_attrs d (hypergraph_to_bipartite fl H))).1 = occurring H ∧
+  mol (bipartite_to_hypergraph ifl (drop_attrs d (hypergraph_to_bipartite fl H))).1
+    = if f_mol fl && i_mol ifl && negb (d_mol d) then filter (λ p, p.1 ∈ occurring H) (mol H) else ∅.
+Proof.
+  intros Hwf Heid Hnames Hok.
+  rewrite (drop_split d), <-(export_drop_arcs fl d H).
+  exact (roundtrip_nodes_edited (fl_drop fl d) ifl (nodes_only d) H Hwf Heid Hnames eq_refl eq_refl Hok).
 Qed.
 
 (** the default prefixes "S:" / "R:" on both sides *)
 Lemma untagged_default_prefixes (fl : bflags) (d : drops) (mol_attr : bool) (H : net) :
   wf16 H → f_eid fl = true → f_stoich fl = true → f_int fl = false → f_sp fl = Some "S:" → f_rp fl = Some "R:" →
-  d_stoich d = false → d_role d = false → d_label_sp d = false →
+  d_stoich d = false → d_label_sp d = false →
   (d_label_rx d = true → map_Forall (λ _ rx, r_rule rx = "r") (edges H)) →
   (bipartite_to_hypergraph (default_iflags mol_attr) (drop_attrs d (hypergraph_to_bipartite fl H))).2 = None ∧
   edges (bipartite_to_hypergraph (default_iflags mol_attr) (drop_attrs d (hypergraph_to_bipartite fl H))).1 = edges H.
 Proof.
-  intros Hwf Heid Hsto Hint Hsp Hrp Hst Hro Hlsp Hlrx.
-  destruct (bipartite_roundtrip_edited fl (default_iflags mol_attr) d H Hwf Heid Hsto) as (H1 & H2 & _).
+  intros Hwf Heid Hsto Hint Hsp Hrp Hst Hlsp Hlrx.
+  destruct (bipartite_roundtrip_edited fl (default_iflags mol_attr) d H Hwf Heid) as (H1 & H2 & _).
   - by apply default_prefixes_ok.
   - unfold edit_ok. rewrite Hsp, Hrp, Hint, Hlsp. cbn.
-    split; [done|]. split; [done|]. split; [done|]. split; [done|]. split; [done|]. split; [|done].
+    split; [done|]. split; [done|]. split; [done|]. split; [|done].
     intros _. split; [done|]. by intros e rx _.
-  - done.
+  - split; [done|]. rewrite H2. rewrite (map_fmap_ext _ id); [apply map_fmap_id|].
+    intros e rx _. apply cvr_id. unfold fl_drop. cbn. by rewrite Hsto, Hst.
 Qed.
 
 (** * non-vacuity, and the premises are needed *)
@@ -328,4 +343,14 @@ Proof. split_and!; by vm_compute. Qed.
 Example ex_edit_prefix_needed :
   bool_decide (edit_ok (exd_fl (Some "") (Some "R:") false) (IFlags "" "R:" "r" true) exd_untagged exd_net) = false ∧
   bool_decide (edges (exd_back (exd_fl (Some "") (Some "R:") false) (IFlags "" "R:" "r" true) exd_untagged).1 = edges exd_net) = false.
+Proof. split_and!; by vm_compute. Qed.
+
+(** coefficients and roles deleted as well (and every `kind`): the supports come back under the same ids *)
+Definition exd_all_arcs : drops := Drops true true false false true true false true.
+Example ex_edit_arcs :
+  bool_decide (edit_ok (exd_fl (Some "S:") (Some "R:") false) (default_iflags true) exd_all_arcs exd_net) = true ∧
+  bool_decide (edges (exd_back (exd_fl (Some "S:") (Some "R:") false) (default_iflags true) exd_all_arcs).1
+               = cvr (fl_drop (exd_fl (Some "S:") (Some "R:") false) exd_all_arcs) <$> edges exd_net) = true ∧
+  bool_decide (edges (exd_back (exd_fl (Some "S:") (Some "R:") false) (default_iflags true) exd_all_arcs).1 = edges exd_net) = false ∧
+  (r_rhs <$> edges (exd_back (exd_fl (Some "S:") (Some "R:") false) (default_iflags true) exd_all_arcs).1 !! "x") = Some {[ "C" := 1%positive ]}.
 Proof. split_and!; by vm_compute. Qed.
